@@ -4203,8 +4203,13 @@ impl<'s> Semantics<'s> {
             );
 
             // store result: dest gets sum, src gets original dest
-            self.operand_store(block, &detail.operands[0], result.into())?;
+            self.operand_store(block, &detail.operands[0], result.clone().into())?;
             self.operand_store(block, &detail.operands[1], original_dest.into())?;
+            // DEST := TEMP is the last step of XADD: the sum wins when both operands name
+            // the same register
+            if detail.operands[0].type_ == x86_op_type::X86_OP_REG {
+                self.operand_store(block, &detail.operands[0], result.into())?;
+            }
 
             block.index()
         };
